@@ -231,7 +231,7 @@ Proof.
   destruct (clip01_spec 1) as (_ & A1 & _), (clip01_spec y) as (_ & B1 & _). rewrite A1, B1; lra.
 Qed.
 
-Lemma hard_target_sub_spec r er h : 0 < h -> h <= 1 -> er == 1 - h ->
+Lemma hard_target_sub_spec r er h : 0 < h -> h <= 1 -> er <= 1 - h ->
   clip01 (Qmaximum (Qminimum (Qmaximum (r - er) 0 / h) 1) (b2q (Qleb 1 r))) == clip01 ((r - er) / h).
 Proof.
   intros Hh Hh1 Her. unfold Qmaximum, Qminimum.
@@ -286,7 +286,7 @@ Proof.
   destruct (hard_pos_ratio_range s Hn He) as [Hh0 Hh1].
   assert (HN : 0 < inject_Z (len (pos s))) by (change 0 with (inject_Z 0); rewrite <- Zlt_Qlt; lia).
   eapply within1_compat; [|exact R]. unfold hard_target_tpr.
-  rewrite (hard_target_sub_spec r (easy_pos_ratio s) (hard_pos_ratio s) Hh0 Hh1) by (unfold easy_pos_ratio; reflexivity).
+  rewrite (hard_target_sub_spec r (easy_pos_ratio s) (hard_pos_ratio s) Hh0 Hh1) by (unfold easy_pos_ratio; lra).
   rewrite clip01_scale by exact HN. apply clipQ_compat; [lra|].
   pose proof (pos_ratio_inv s Hn He) as Hinv. unfold easy_pos_ratio.
   assert (E : (r - (1 - hard_pos_ratio s)) / hard_pos_ratio s * inject_Z (len (pos s))
@@ -308,7 +308,7 @@ Proof.
   destruct (hard_neg_ratio_range s Hn He) as [Hh0 Hh1].
   assert (HN : 0 < inject_Z (len (neg s))) by (change 0 with (inject_Z 0); rewrite <- Zlt_Qlt; lia).
   eapply within1_compat; [|exact R]. unfold hard_target_tnr.
-  rewrite (hard_target_sub_spec r (easy_neg_ratio s) (hard_neg_ratio s) Hh0 Hh1) by (unfold easy_neg_ratio; reflexivity).
+  rewrite (hard_target_sub_spec r (easy_neg_ratio s) (hard_neg_ratio s) Hh0 Hh1) by (unfold easy_neg_ratio; lra).
   rewrite clip01_scale by exact HN. apply clipQ_compat; [lra|].
   pose proof (neg_ratio_inv' s Hn He) as Hinv. unfold easy_neg_ratio.
   assert (E : (r - (1 - hard_neg_ratio s)) / hard_neg_ratio s * inject_Z (len (neg s))
@@ -331,4 +331,86 @@ Proof.
   eapply within1_compat; [|exact R]. unfold hard_target_fpr, Qminimum.
   rewrite clip01_min1, clip01_scale by exact HN. apply clipQ_compat; [lra|].
   rewrite <- (neg_ratio_inv' s Hn He). field. lra.
+Qed.
+
+(* ---------- TOPR / TONR: explicit form ---------- *)
+Lemma all_samples_pos s : (1 <= nb_hard_samples s)%Z -> (0 <= easy_pos s)%Z -> (0 <= easy_neg s)%Z ->
+  0 < inject_Z (nb_all_samples s).
+Proof. intros. change 0 with (inject_Z 0). rewrite <- Zlt_Qlt. unfold nb_all_samples, nb_easy_samples. lia. Qed.
+
+Lemma concat_ratio_inv s : (1 <= nb_hard_samples s)%Z -> (0 <= easy_pos s)%Z -> (0 <= easy_neg s)%Z ->
+  inject_Z (nb_hard_samples s) / hard_ratio s == inject_Z (nb_all_samples s).
+Proof.
+  intros Hh Hp Hn. unfold hard_ratio, easy_ratio, nb_all_samples.
+  assert (Hq : 1 <= inject_Z (nb_hard_samples s)) by (change 1 with (inject_Z 1); rewrite <- Zle_Qle; lia).
+  destruct (0 <? nb_easy_samples s)%Z eqn:E.
+  - apply Z.ltb_lt in E. rewrite inject_Z_plus.
+    assert (0 < inject_Z (nb_easy_samples s)) by (change 0 with (inject_Z 0); rewrite <- Zlt_Qlt; lia).
+    field. split; lra.
+  - apply Z.ltb_ge in E. assert (nb_easy_samples s = 0)%Z by (unfold nb_easy_samples in *; lia).
+    rewrite H, Z.add_0_l. field.
+Qed.
+
+Lemma easy_share_le s (e : Z) : (1 <= nb_hard_samples s)%Z -> (0 <= easy_pos s)%Z -> (0 <= easy_neg s)%Z ->
+  (0 <= e <= nb_easy_samples s)%Z -> inject_Z e / inject_Z (nb_all_samples s) <= 1 - hard_ratio s.
+Proof.
+  intros Hh Hp Hn He. pose proof (all_samples_pos s Hh Hp Hn) as Ha. unfold hard_ratio, easy_ratio.
+  destruct (0 <? nb_easy_samples s)%Z eqn:E.
+  - assert (inject_Z e <= inject_Z (nb_easy_samples s)) by (rewrite <- Zle_Qle; lia).
+    assert (inject_Z e / inject_Z (nb_all_samples s) <= inject_Z (nb_easy_samples s) / inject_Z (nb_all_samples s)).
+    { apply Qle_shift_div_l; [exact Ha|]. unfold Qdiv. rewrite <- Qmult_assoc, (Qmult_comm (/ _)), Qmult_inv_r by lra. lra. }
+    lra.
+  - apply Z.ltb_ge in E. assert (e = 0)%Z by lia. subst e. unfold Qdiv. change (inject_Z 0) with 0. lra.
+Qed.
+
+Theorem roundtrip_topr_rate (succ pred : Q -> Q) s r T :
+  (forall x, x < succ x) -> (forall x, pred x < x) ->
+  ssorted (concat_scores s) -> (0 <= easy_pos s)%Z -> (0 <= easy_neg s)%Z ->
+  threshold_at_topr succ pred s r Linear = Ret T ->
+  within1 (ctp (cm s (Fin T)) + cfp (cm s (Fin T)) - easy_pos s)
+          (clipQ 0 (inject_Z (nb_hard_samples s)) (r * inject_Z (nb_all_samples s) - inject_Z (easy_pos s))).
+Proof.
+  intros Hsucc Hpred Hss Hp Hn HT. pose proof (roundtrip_topr succ pred Hsucc Hpred s r T Hss HT) as R.
+  assert (Hh : (1 <= nb_hard_samples s)%Z).
+  { unfold threshold_at_topr in HT. cbv zeta in HT. rewrite (len_concat s) in HT.
+    destruct (nb_hard_samples s =? 0)%Z eqn:E; [discriminate|]. apply Z.eqb_neq in E.
+    unfold nb_hard_samples in *. pose proof (len_nonneg (pos s)). pose proof (len_nonneg (neg s)). lia. }
+  destruct (hard_ratio_range s Hh Hp Hn) as [Hh0 Hh1]. pose proof (all_samples_pos s Hh Hp Hn) as Ha.
+  assert (EL : len (concat_scores s) = nb_hard_samples s) by apply len_concat.
+  rewrite EL in R.
+  assert (HN : 0 < inject_Z (nb_hard_samples s)) by (change 0 with (inject_Z 0); rewrite <- Zlt_Qlt; lia).
+  eapply within1_compat; [|exact R]. unfold hard_target_topr.
+  rewrite (hard_target_sub_spec r _ (hard_ratio s) Hh0 Hh1)
+    by (apply easy_share_le; try assumption; unfold nb_easy_samples; lia).
+  rewrite clip01_scale by exact HN. apply clipQ_compat; [lra|].
+  pose proof (concat_ratio_inv s Hh Hp Hn) as Hinv.
+  set (q := inject_Z (easy_pos s) / inject_Z (nb_all_samples s)).
+  assert (E : (r - q) / hard_ratio s * inject_Z (nb_hard_samples s) == (r - q) * (inject_Z (nb_hard_samples s) / hard_ratio s)) by (field; lra).
+  rewrite E, Hinv. unfold q. field. lra.
+Qed.
+
+Theorem roundtrip_tonr_rate (succ pred : Q -> Q) s r T :
+  (forall x, x < succ x) -> (forall x, pred x < x) ->
+  ssorted (concat_scores s) -> (0 <= easy_pos s)%Z -> (0 <= easy_neg s)%Z ->
+  threshold_at_tonr succ pred s r Linear = Ret T ->
+  within1 (cfn (cm s (Fin T)) + ctn (cm s (Fin T)) - easy_neg s)
+          (clipQ 0 (inject_Z (nb_hard_samples s)) (r * inject_Z (nb_all_samples s) - inject_Z (easy_neg s))).
+Proof.
+  intros Hsucc Hpred Hss Hp Hn HT. pose proof (roundtrip_tonr succ pred Hsucc Hpred s r T Hss HT) as R.
+  assert (Hh : (1 <= nb_hard_samples s)%Z).
+  { unfold threshold_at_tonr in HT. cbv zeta in HT. rewrite (len_concat s) in HT.
+    destruct (nb_hard_samples s =? 0)%Z eqn:E; [discriminate|]. apply Z.eqb_neq in E.
+    unfold nb_hard_samples in *. pose proof (len_nonneg (pos s)). pose proof (len_nonneg (neg s)). lia. }
+  destruct (hard_ratio_range s Hh Hp Hn) as [Hh0 Hh1]. pose proof (all_samples_pos s Hh Hp Hn) as Ha.
+  assert (EL : len (concat_scores s) = nb_hard_samples s) by apply len_concat.
+  rewrite EL in R.
+  assert (HN : 0 < inject_Z (nb_hard_samples s)) by (change 0 with (inject_Z 0); rewrite <- Zlt_Qlt; lia).
+  eapply within1_compat; [|exact R]. unfold hard_target_tonr.
+  rewrite (hard_target_sub_spec r _ (hard_ratio s) Hh0 Hh1)
+    by (apply easy_share_le; try assumption; unfold nb_easy_samples; lia).
+  rewrite clip01_scale by exact HN. apply clipQ_compat; [lra|].
+  pose proof (concat_ratio_inv s Hh Hp Hn) as Hinv.
+  set (q := inject_Z (easy_neg s) / inject_Z (nb_all_samples s)).
+  assert (E : (r - q) / hard_ratio s * inject_Z (nb_hard_samples s) == (r - q) * (inject_Z (nb_hard_samples s) / hard_ratio s)) by (field; lra).
+  rewrite E, Hinv. unfold q. field. lra.
 Qed.
